@@ -6,7 +6,9 @@
 use super::*;
 
 /// cancellation reason codes allowed in field 79 of MT192 (constant table of mt192.rs)
-const MT192_79_CODES: &[&str] = &["AGNT", "AM09", "COVR", "CURR", "CUST", "CUTA", "DUPL", "FRAD", "TECH", "UPAY"];
+const MT192_79_CODES: &[&str] = &[
+    "AGNT", "AM09", "COVR", "CURR", "CUST", "CUTA", "DUPL", "FRAD", "TECH", "UPAY",
+];
 
 pub fn expected(v: &RView) -> Expect {
     let mut e = Expect::default();
